@@ -1589,7 +1589,7 @@ class Color(object):
     def parse_color_hsl(values):
         """Parse SVG color, HSL value declarations"""
         h = Angle.parse(values[0])
-        h = h.as_turns
+        h = h.as_turns % 1.0  # hue is taken modulo a full turn.
         s = float(values[1]) / 100.0
         if s > 1:
             s = 1.0
